@@ -48,6 +48,9 @@ def run(chk):
         for l_ in ln:
             chk.check(fa.cfg.dominates(l_, adv[0]) or l_ not in fa.cfg.reach_from(adv[0]), "R1", f"{B}:PdoMap.add_variable | custom length before advance", av.loc(l_.ast), "")
             chk.check(l_ not in fa.cfg.reach_from(adv[0]), "R1", f"{B}:PdoMap.add_variable | length fixed before it is counted", av.loc(l_.ast), "var.length changes after it was added to the total")
+    from . import shared as _sh5
+    _sh5.mapping_length_exact(chk, "R1")
+    _sh5.read_mapping_loop(chk, "R7")
     wit = must_pass(fa.cfg, lambda n: node_calls(n, "self._update_data_size"))
     chk.check(wit is None, "R1", f"{B}:PdoMap.add_variable | data size refreshed on every path", av.loc(), f"{path_text(wit) if wit else ''}")
     for u in [n for n in fa.cfg.nodes if node_calls(n, "self._update_data_size")]:
